@@ -4,7 +4,7 @@ type-hinting and to keep the code more expressive & readable.
 """
 
 import sys
-from dataclasses import dataclass
+from dataclasses import dataclass, field, replace
 from textwrap import indent
 from typing import Any, Type, TypeVar, Union, cast
 
@@ -230,6 +230,10 @@ class Message:
     security_parameters: bytes
     #: The "old-style" PDU (either plain or encrypted)
     scoped_pdu: Union[OctetString, ScopedPDU]
+    #: The message exactly as it was received from the network (empty for
+    #: messages which were not decoded from bytes). The message digest of
+    #: incoming messages must be verified against these bytes.
+    raw_bytes: bytes = field(default=b"", compare=False, repr=False)
 
     def __bytes__(self) -> bytes:
         spdu: X690Type[Any]
@@ -316,7 +320,8 @@ class Message:
             if isinstance(message[3], OctetString)
             else PlainMessage
         )
-        return cls.from_sequence(message)  # type: ignore
+        output = cls.from_sequence(message)  # type: ignore
+        return replace(output, raw_bytes=bytes(data))
 
     def pretty(self, depth: int = 0) -> str:
         """
